@@ -26,6 +26,7 @@ TRACE_CFG = "RingTrace.cfg"
 SIG_FLAVOURS = ("sig", "usig", "vsig", "uvsig")
 OP_KEYS = ("op", "l", "l2", "x", "x2")
 MAX_ABORTS_PER_WORKER = 12
+JUDGE_BATCH = 160000
 LIST_KINDS = ("list_ctor", "list_move_ctor", "list_move_assign", "list_dtor", "elem_ctor", "elem_move_ctor",
               "elem_move_assign", "elem_dtor", "unlink")
 SIG_KINDS = ("sig_ctor", "sig_move_ctor", "sig_move_assign", "sig_dtor", "connect", "disconnect")
@@ -115,9 +116,21 @@ def judge_lines(ctx, lines, what, path):
     """Judge complete log lines with RingTrace; returns number of events judged."""
     if not lines:
         return 0
-    with open(path, "w") as f:
-        f.write("\n".join(lines) + "\n")
-    bad = vlib.judge_trace(ctx, TRACE_MODULE, TRACE_CFG, path)
+    # batches of <= JUDGE_BATCH lines (cut at history boundaries), each judged by 16 parallel
+    # single-worker TLC processes: keeps every TLC process small
+    bad = []
+    start = 0
+    while start < len(lines):
+        stop = min(len(lines), start + JUDGE_BATCH)
+        while stop < len(lines) and not lines[stop].startswith('{"e":"reset"'):
+            stop += 1
+        with open(path, "w") as f:
+            f.write("\n".join(lines[start:stop]) + "\n")
+        for b in vlib.judge_trace(ctx, TRACE_MODULE, TRACE_CFG, path, timeout=3000):
+            b = dict(b)
+            b["l"] += start
+            bad.append(b)
+        start = stop
     nev = sum(1 for x in lines if x.startswith('{"e":"op"'))
     ctx.evaluations += nev
     # report the shortest failing history of each signature first
@@ -271,11 +284,9 @@ def count_classes(ctx, lines):
 def model_check_jobs(ctx, thorough):
     """Thunks: the model checks of the specifications and the vacuity guards (run concurrently)."""
     cov = thorough
-    runs = [("Membership", "MC_Membership.cfg"), ("Ring", "MC_Ring_big.cfg"),
-            ("Ring", "MC_Ring_mut_list_move_ctor.cfg"), ("Signal", "MC_Signal.cfg")]
+    runs = [("Membership", "MC_Membership.cfg"), ("Ring", "MC_Ring_mut_list_move_ctor.cfg")]
     if thorough:
-        runs.append(("Ring", "MC_Ring_huge.cfg"))
-        runs.append(("Signal", "MC_Signal_big.cfg"))
+        runs += [("Ring", "MC_Ring_big.cfg"), ("Ring", "MC_Ring_huge.cfg"), ("Signal", "MC_Signal_big.cfg")]
 
     def mc(mod, cfg):
         r = vlib.tlc_mc(ctx, mod, cfg, workers=8, coverage=cov, timeout=3000)
@@ -299,7 +310,8 @@ def model_check_jobs(ctx, thorough):
 
 
 def emit_scripts(ctx, mod, cfg, minimum):
-    r = vlib.tlc_mc(ctx, mod, cfg, workers=4)
+    """Model-check mod/cfg (all invariants) and collect the operation scripts its CONSTRAINT prints."""
+    r = vlib.tlc_mc(ctx, mod, cfg, workers=4, timeout=3000)
     scripts = vlib._verdict_lines(r.out).get("SCRIPT", [])
     scripts = [s for s in scripts if isinstance(s, list)]
     if len(scripts) < minimum:
@@ -314,9 +326,9 @@ def run(ctx):
     #    (lists) and of the signal model, and the harness build - all concurrently
     out = {}
     jobs = model_check_jobs(ctx, thorough) + [
-        lambda: out.__setitem__("small", emit_scripts(ctx, "Ring", "MC_RingScripts.cfg", 1000)),
-        lambda: out.__setitem__("big", emit_scripts(ctx, "Ring", "MC_RingScripts_big.cfg", 20000)),
-        lambda: out.__setitem__("sigs", emit_scripts(ctx, "Signal", "MC_SignalScripts.cfg", 1000)),
+        lambda: out.__setitem__("small", emit_scripts(ctx, "Ring", "MC_Ring.cfg", 1000)),
+        lambda: out.__setitem__("big", emit_scripts(ctx, "Ring", "MC_Ring_34.cfg", 20000)),
+        lambda: out.__setitem__("sigs", emit_scripts(ctx, "Signal", "MC_Signal.cfg", 1000)),
         lambda: out.__setitem__("binary", build()),
     ]
     vlib.parallel(lambda f: f(), jobs, workers=8)
@@ -338,7 +350,8 @@ def run(ctx):
     small.sort(key=len)
     if thorough:
         lscripts = [s for s in small for _ in range(3)] + big
-        jobs = [("list", lscripts)] + [(fl, [s for s in sigs for _ in range(3)]) for fl in SIG_FLAVOURS]
+        jobs = [("list", lscripts)] + [(fl, [s for s in sigs for _ in range(3 if fl in ("sig", "uvsig") else 1)])
+                                       for fl in SIG_FLAVOURS]
     else:
         # quick: all transitions of the 2x3 list model (x3 orders), every 16th of the 3x4 model, all
         # transitions of the signal model on the plain int signal and a different quarter on each
@@ -359,7 +372,7 @@ def run(ctx):
     ctx.sample({"tlc_script": small[len(small) // 2]})
     ctx.sample({"tlc_signal_script": sigs[len(sigs) // 2]})
     # 4. code -> spec: seeded random histories, in rounds of 16 parallel ranges
-    rounds, per, ml = (10, 500, 50) if thorough else (1, 250, 50)
+    rounds, per, ml = (5, 500, 50) if thorough else (1, 250, 50)
     nw = 16
     stats = {"requested": rounds * nw * per, "run": 0, "aborted": 0}
     for rd in range(rounds):
@@ -387,7 +400,7 @@ def run(ctx):
                 "(b) seeded random histories <= 50 ops over 3 lists/signals and 8 elements/connections, cycling through list / "
                 "signal flavours, everything destroyed in random order at the end; a class = (flavour, operation, "
                 "size bucket of the destination and of the source list/signal before the operation, any element alive) "
-                "of an executed event" % (("complete", " x3 destruction orders") if thorough else ("every 16th transition", ", a quarter each on three of them")))
+                "of an executed event" % (("complete", " (x3 destruction orders on two of them)") if thorough else ("every 16th transition", ", a quarter each on three of them")))
     ctx.assumptions += [
         "writes through pointers to destroyed heads/elements are only OBSERVED via ASan in the harness (every node is a separate heap object), not decided by the TLA+ spec",
         "moving an object onto itself is not driven (the statement is silent); connections are not movable through the public API",
